@@ -2,7 +2,7 @@
    driver.  ExtrOcamlBasic only. *)
 From Coq Require Import Extraction ExtrOcamlBasic ZArith String.
 From Flocq Require Import IEEE754.Binary IEEE754.Bits.
-From FitV Require Import Model.FitTime Model.LatLng.
+From FitV Require Import Model.FitTime Model.LatLng Spec.FixedPoint.
 
 Extraction Language OCaml.
 Extraction "fitmodel_c17.ml"
@@ -12,4 +12,5 @@ Extraction "fitmodel_c17.ml"
   LatLng.new_longitude LatLng.new_longitude_degrees LatLng.new_longitude_invalid LatLng.lng_semis LatLng.lng_degrees
   LatLng.lng_invalid LatLng.lng_string
   LatLng.format_f5_32 LatLng.semi_to_deg LatLng.deg_to_semi LatLng.go_nan
+  FixedPoint.parse_fixed5
   Bits.bits_of_b64 Bits.b64_of_bits.
